@@ -218,7 +218,14 @@ in that bracket structure (`bracketAt`). Hence
 * a `Return` (or an error leaving the frame) finds open builders only when it sits inside a literal's
   bracket — those are what `pop_frame` / the catch path truncate away (fix 97373d1): the VM's contract
   is "a frame may be left from inside a literal; inside the frame every builder instruction works on
-  the builder of its own bracket", and this is what is accepted, no more. -/
+  the builder of its own bracket", and this is what is accepted, no more;
+* since compiler fix 2f5d1ea (`break` / `continue` finish the loop body's open builders before jumping)
+  the bracket structure is the one `linLex` computes: an exit sequence — `Finish` instructions directly
+  followed by an unconditional `Jump` / `JumpBack` — closes its brackets on the leaving path only, the
+  code after the jump continues inside them. The statement is unchanged; `linOk` / `bracketAt` now read
+  the static depths off `linLex` (previously every `Finish` closed its bracket for all following code,
+  which rejects these chunks). The balance rule is untouched: the jump's target still sees exactly the
+  depth at the jump. -/
 theorem wf_builders_bracketed (bytes : List Nat) (consts : List CKind) (h : wfChunk bytes consts = true)
     (base need : Nat) (l : List Ann) (hu : (base, need, l) ∈ chunkUnits bytes) :
     linOk 0 0 l = true
@@ -230,6 +237,34 @@ theorem wf_builders_bracketed (bytes : List Nat) (consts : List CKind) (h : wfCh
   have := bracketAt_of_linOk base l 0 0 hf.sorted hf.brackets a hm.1 _ had
   rw [hm.2] at this
   exact this
+
+/-- exit sequences (finding F-C05-5, fixed by 2f5d1ea) on concrete chunks. Accepted: a conditional
+`break` inside a list literal that finishes the list before jumping while the other branch continues
+the literal (`Start; JumpIfFalse L; ToList tmp; Jump END; L: ToList r; END: Return` — the instruction at
+`L` has static depth 1 again, the jump and the exit are at depth 0); the same with a string nested in
+the list (two finishing instructions); an unconditional `break` (the rest of the literal is dead code);
+a literal assigned at the end of a loop body (`ToList x; JumpBack`, nothing is restored); the real chunk
+of `for x in (1, 2)` / `y = [1, (if x == 1 then continue), 3]` / `print y`. Rejected: the jump without
+the finishing instruction (the chunk before the fix: the exit is reached with and without the builder);
+an exit sequence whose other branch never finishes the literal; one finishing instruction too many; a
+jump to the next instruction between two finishing instructions (nothing left to finish); and — by
+the bracket rule alone — an other branch that returns inside the literal although no `Finish` follows. -/
+theorem wf_exit_sequences :
+    wfChunk [0, 3, 19, 2, 57, 1, 5, 0, 22, 2, 55, 2, 0, 22, 1, 62, 1] [] = true
+    ∧ (match unitListing 0 [0, 3, 19, 2, 57, 1, 5, 0, 22, 2, 55, 2, 0, 22, 1, 62, 1] with
+       | some (l, _) => (bracketAt 0 0 l 8, bracketAt 0 0 l 10, bracketAt 0 0 l 13, bracketAt 0 0 l 15)
+       | none => (none, none, none, none)) = (some (1, 0), some (0, 0), some (1, 0), some (0, 0))
+    ∧ wfChunk [0, 3, 19, 2, 24, 2, 57, 1, 7, 0, 26, 2, 22, 2, 55, 4, 0, 26, 2, 22, 1, 62, 1] [] = true
+    ∧ wfChunk [0, 3, 19, 2, 22, 2, 55, 2, 0, 22, 1, 62, 1] [] = true
+    ∧ wfChunk [0, 3, 19, 2, 22, 2, 56, 7, 0, 62, 1] [] = true
+    ∧ wfChunk [0, 9, 2, 3, 19, 2, 6, 6, 7, 7, 2, 21, 6, 2, 23, 5, 18, 4, 5, 65, 1, 4, 49, 0, 19, 3, 6, 5, 6, 8, 53,
+        7, 1, 8, 57, 7, 10, 0, 2, 3, 22, 7, 56, 26, 0, 55, 2, 0, 2, 6, 7, 7, 3, 21, 5, 3, 22, 2, 12, 5, 2, 1, 7, 2,
+        60, 3, 5, 6, 1, 0, 56, 54, 0, 62, 3] [.str, .str, .str] = true
+    ∧ wfChunk [0, 3, 19, 2, 57, 1, 3, 0, 55, 2, 0, 22, 1, 62, 1] [] = false
+    ∧ wfChunk [0, 3, 19, 2, 57, 1, 5, 0, 22, 2, 55, 0, 0, 62, 1] [] = false
+    ∧ wfChunk [0, 3, 19, 2, 57, 1, 7, 0, 22, 2, 22, 2, 55, 2, 0, 22, 1, 62, 1] [] = false
+    ∧ wfChunk [0, 3, 19, 2, 22, 2, 55, 0, 0, 22, 1, 62, 1] [] = false
+    ∧ wfChunk [0, 3, 19, 2, 57, 1, 5, 0, 22, 2, 55, 2, 0, 62, 1, 62, 1] [] = false := by decide
 
 /-- **try balance at jumps is exact** (finding F-C05-6, fixed by 0e9e81b): in an accepted chunk the
 depth triple — open try blocks included — at the target of every reachable `Jump` / `JumpBack` is the
